@@ -56,7 +56,7 @@ def main():
             "guard": "APACHE_XALAN_C_VERIF",
             "enable": "cmake -S /repo -B /verif/.build/plain -DCMAKE_CXX_FLAGS='-Wno-error -DAPACHE_XALAN_C_VERIF' (done by every check through vlib/core.py:build_lib); harness drivers are compiled with -DAPACHE_XALAN_C_VERIF too",
             "baseline_off_cmd": "cmake --build /repo/_build && ctest --test-dir /repo/_build -j8 --timeout 900",
-            "source_commits": [],
+            "source_commits": [l.strip() for l in os.popen("git -C /repo log --format=%H --grep='^verification hook'").read().split()],
             "add_only": True,
         },
         "engines": [{"name": e, "path": "/verif/coq + /verif/harness/%s.cpp + /verif/ocaml/%s_driver.ml" % (e, e),
